@@ -164,17 +164,23 @@ def run_part(prop, pi, part, hdir, tier, seed, args, logdir):
                 sel = [h for h in sel if re.search(args.only, h['name'])]
             if not sel:
                 return out
-            names = [h['name'] for h in sel]
-            for a in names:
-                for b in names:
-                    if a != b and a in b:
-                        raise SystemExit(f'harness name {a} is a substring of {b}')
+            modpath = part.get('modpath', 'harness' if engine == 'kslice' else None)
+            if modpath:
+                names = [f"{modpath}::{h['name']}" for h in sel]
+                exact = True
+            else:
+                names = [h['name'] for h in sel]
+                exact = False
+                for a in names:
+                    for b in names:
+                        if a != b and a in b:
+                            raise SystemExit(f'harness name {a} is a substring of {b} (give the part a modpath)')
             tmo = args.timeout or part.get('timeout', {}).get(tier, 900 if tier == 'quick' else 7200)
             mem = part.get('mem_gb', {}).get(tier, 16 if tier == 'quick' else 40)
             jobs = min(args.jobs, part.get('max_jobs', {}).get(tier, args.jobs), len(sel))
             log(f'[{prop}] part {pi} ({engine}): {len(sel)} harnesses, tier {tier}, {jobs} parallel, '
                 f'{tmo}s/harness, building ...')
-            r = core.run_kani(cwd, package, target_dir, names, jobs, tmo, mem,
+            r = core.run_kani(cwd, package, target_dir, names, jobs, tmo, mem, exact=exact,
                               total_timeout=tmo * ((len(sel) + jobs - 1) // jobs) + 3600,
                               logfile=os.path.join(logdir, f'part{pi}.log'))
             m = re.search(r'Finished `\w+` profile.*? in ([0-9.]+)s', r['out'])
@@ -213,7 +219,11 @@ def run_part(prop, pi, part, hdir, tier, seed, args, logdir):
                 rp = {'property': prop, 'harness': h['name'], 'tier': tier, 'engine': engine,
                       'failed_checks': res['failed_checks'], 'bounds': h.get('bounds'),
                       'role': h.get('role'), 'shape': h.get('shape')}
-                if args.no_replay:
+                kf = match_known(prop, h, [c['desc'] for c in res['failed_checks']])
+                if kf:
+                    rp['native_replay'] = f"not repeated: matches known finding {kf['id']} (native demonstration: {kf.get('native_demo')})"
+                    reproduced = True
+                elif args.no_replay:
                     rp['native_replay'] = 'skipped (--no-replay)'
                     reproduced = True
                 else:
